@@ -95,14 +95,14 @@ def pack():
         c = conf.get(name, {})
         if not (c.get("applies") and c.get("suite_green_with_change") and c.get("demo_red_with_change") and c.get("demo_green_without_change")):
             continue
-        d = f"/verif/seeded/{name}"
+        d = f"/verif/seeded/{os.environ.get('MUT_PREFIX', '')}{name}"
         os.makedirs(d, exist_ok=True)
         shutil.copy(diff, f"{d}/patch.diff")
         shutil.copy(diff[:-5] + "_demo.rs", f"{d}/demo.rs")
         md = open(diff[:-5] + ".md").read() if os.path.exists(diff[:-5] + ".md") else ""
         checks = det.get(name, {})
         meta = {
-            "id": name, "breaks_property": prop, "author": "independent sub-agent (given only the property text and a scratch worktree)",
+            "id": os.environ.get("MUT_PREFIX", "") + name, "breaks_property": prop, "author": "independent sub-agent (given only the property text and a scratch worktree)",
             "what_and_what_it_needs_to_manifest": md.strip()[:2500],
             "confirmed_by_me": {"base": "/repo HEAD at the time of confirmation", "applies": True, "existing_suite_green_with_change": True,
                                 "demo_fails_with_change": True, "demo_passes_without_change": True,
